@@ -8,6 +8,7 @@ import (
 	"net/http"
 	"net/url"
 	"reflect"
+	"regexp"
 	"sort"
 	"strings"
 
@@ -188,6 +189,8 @@ func (w *worker) judgeC09(v *verdict, p *harness.Pkg, op *harness.Op, rp *harnes
 	if validate && rp.NoEmpty && !v.violated {
 		if msg := wireValid(p, op, o.WireReq); msg == "quirk" {
 			v.counters["wire_validator_quirk_skipped"]++
+		} else if msg != "" && strings.Contains(msg, "Request body") && o.SentVal.IsValid() && values.HasNestedNilSlice(o.SentVal) {
+			v.violate("req:wire-invalid:body:nested-nil-slice-sent-as-null", "openapi3filter rejects the client's request (the sent value holds a nil slice inside a map or an outer array, which the client encodes as null): "+clipStr(msg, 300)+"\n wire: "+clipStr(string(o.WireReq), 400), exp)
 		} else if msg != "" {
 			v.violate("req:wire-invalid:"+classifyValidation(msg), "openapi3filter rejects the client's request: "+clipStr(msg, 400)+"\n wire: "+clipStr(string(o.WireReq), 400), exp)
 		} else {
@@ -196,7 +199,46 @@ func (w *worker) judgeC09(v *verdict, p *harness.Pkg, op *harness.Op, rp *harnes
 	}
 }
 
+var slugRe = regexp.MustCompile(`[^a-z0-9]+`)
+
+// classifyValidation turns a validator message into a stable class: what is wrong, with which kind of schema,
+// and (for bodies) how deep inside the document - so that different wire-validity defects get different keys.
 func classifyValidation(msg string) string {
+	kind := "other"
+	switch {
+	case strings.HasPrefix(msg, "route"):
+		return "route"
+	case strings.Contains(msg, "Request body"):
+		kind = "body"
+	case strings.Contains(msg, "Parameter") || strings.Contains(msg, "parameter"):
+		kind = "parameter"
+		if m := regexp.MustCompile(`arameter '[^']*' in ([a-z]+)`).FindStringSubmatch(msg); m != nil {
+			kind = "parameter-" + m[1]
+		}
+	}
+	reason, at := "other", -1
+	for _, ph := range []string{"Value is not nullable", "is missing", "Doesn't match schema \"oneOf\"", "Doesn't match schema \"anyOf\"", "Doesn't match schema \"allOf\"",
+		"has unexpected value", "must have a value", "Field must be set to", "is not one of the allowed values", "regular expression", "Number must be", "Minimum string length", "Maximum string length",
+		"Minimum number of items", "is unsupported", "Property", "Invalid", "invalid"} {
+		if k := strings.Index(msg, ph); k >= 0 {
+			reason, at = strings.Trim(slugRe.ReplaceAllString(strings.ToLower(ph), "-"), "-"), k
+			break
+		}
+	}
+	where := ""
+	if k := strings.Index(msg, `Error at "`); k >= 0 && at > k {
+		where = fmt.Sprintf(":depth%d", strings.Count(msg[k:at], "/"))
+	}
+	typ := ""
+	if m := regexp.MustCompile(`(?s)Schema:\n  \{.*?\n    "type": "([a-z]+)"\n  \}`).FindStringSubmatch(msg); m != nil {
+		typ = ":" + m[1]
+	} else if m := regexp.MustCompile(`\n    "type": "([a-z]+)"`).FindStringSubmatch(msg); m != nil {
+		typ = ":" + m[1]
+	}
+	return kind + ":" + reason + typ + where
+}
+
+func classifyValidationOld(msg string) string {
 	switch {
 	case strings.Contains(msg, "Parameter"):
 		if i := strings.Index(msg, " in "); i > 0 {
